@@ -6,10 +6,12 @@ package main
 //	run <engine> <comp limit> <mem limit> <family> <kind> <signers> <src>
 //	    one program under a computation limit and a memory limit (recording gauges of meterx);
 //	    obs: <status:class:kind> ;; comp=<used> mem=<used> loops=<n> calls=<n>
-//	depth <configured limit> <D>
+//	depth <configured limit> <D> [<shape>]
 //	    `f(D)` recursing D deep under runtime.Config.StackDepthLimit (0 = default), both engines;
+//	    shape = fun (default) | method | closure | mutual | tx (closure recursion inside prepare);
 //	    obs: interp=<outcome> vm=<outcome>
-//	hang           the child exceeded the wall-clock bound without any limit error
+//	hang           the child exceeded the wall-clock bound without any limit error, and did so again when
+//	               the operation was re-run alone with 3x the bound (see bdExec)
 //	crash:<line>   the child died (Go stack overflow, out of memory, fatal error)
 
 import (
@@ -21,6 +23,7 @@ import (
 	"os/exec"
 	"strconv"
 	"strings"
+	"sync"
 	"syscall"
 	"time"
 
@@ -33,7 +36,7 @@ func init() {
 		bdChild()
 		os.Exit(0)
 	}
-	hx.Register(&hx.Stream{Name: "bounded", Gen: bdGen, Exec: bdExec, Parallel: true, Timeout: 3000 * time.Second, Setup: bdCalibrate})
+	hx.Register(&hx.Stream{Name: "bounded", Gen: bdGen, Exec: bdExec, Parallel: true, Timeout: 6 * time.Hour, Setup: bdCalibrate}) // the wall-clock bounds are bdExec's own
 }
 
 // bdWallBound is the wall-clock bound of one child.  It is calibrated against the current load of the
@@ -56,6 +59,10 @@ func bdCalibrate() {
 func bdBound(comp uint64) time.Duration {
 	if bdCalibrating {
 		return 900 * time.Second
+	}
+	if ms, err := strconv.Atoi(os.Getenv("VERIF_BOUNDED_FIRST_BOUND_MS")); err == nil && ms > 0 {
+		// test hook for the re-confirmation path: an artificially small first bound
+		return time.Duration(ms) * time.Millisecond
 	}
 	if comp < 100_000 {
 		comp = 100_000
@@ -186,6 +193,18 @@ func bdGen(c *hx.Ctx) {
 			c.Emit("depth", strconv.Itoa(lim), strconv.Itoa(d))
 		}
 	}
+	// the other forms of recursion (method, closure, mutual, closure inside a transaction) at the boundary
+	for _, shape := range bdDepthShapes[1:] {
+		for _, lim := range []int{0, 50} {
+			eff := lim
+			if eff == 0 {
+				eff = 2000
+			}
+			for _, d := range []int{eff - 2, eff - 1, eff} {
+				c.Emit("depth", strconv.Itoa(lim), strconv.Itoa(d), shape)
+			}
+		}
+	}
 	if c.Thorough() {
 		for _, d := range []int{10, 1000, 1990, 2500, 10000} {
 			c.Emit("depth", "0", strconv.Itoa(d))
@@ -212,7 +231,21 @@ func bdGen(c *hx.Ctx) {
 	}
 }
 
-func bdDepthProgram(d int) meterx.Prog {
+// bdDepthShapes: the forms of recursion of the depth operations.  Each nests exactly D + 1 invocations
+// made by the program below the entry point (the entry point itself is invoked by the host).
+var bdDepthShapes = []string{"fun", "method", "closure", "mutual", "tx"}
+
+func bdDepthProgram(d int, shape string) meterx.Prog {
+	switch shape {
+	case "method":
+		return meterx.Prog{Kind: "script", Src: fmt.Sprintf("access(all) struct T { access(all) fun m(_ n: Int): Int { if n <= 0 { return 0 }; return 1 + self.m(n - 1) } }\naccess(all) fun main(): Int { let t = T(); return t.m(%d) }", d)}
+	case "closure":
+		return meterx.Prog{Kind: "script", Src: fmt.Sprintf("access(all) fun main(): Int { var h: fun(Int): Int = fun (_ n: Int): Int { return n }; h = fun (_ n: Int): Int { if n <= 0 { return 0 }; return 1 + h(n - 1) }; return h(%d) }", d)}
+	case "mutual":
+		return meterx.Prog{Kind: "script", Src: fmt.Sprintf("access(all) fun a(_ n: Int): Int { if n <= 0 { return 0 }; return 1 + b(n - 1) }\naccess(all) fun b(_ n: Int): Int { if n <= 0 { return 0 }; return 1 + a(n - 1) }\naccess(all) fun main(): Int { return a(%d) }", d)}
+	case "tx":
+		return meterx.Prog{Kind: "tx", Signers: 1, Src: fmt.Sprintf("transaction { prepare(a: &Account) { var h: fun(Int): Int = fun (_ n: Int): Int { return n }; h = fun (_ n: Int): Int { if n <= 0 { return 0 }; return 1 + h(n - 1) }; let r = h(%d) } }", d)}
+	}
 	return meterx.Prog{Kind: "script", Src: fmt.Sprintf("access(all) fun f(_ n: Int): Int { if n <= 0 { return 0 }; return 1 + f(n - 1) }\naccess(all) fun main(): Int { return f(%d) }", d)}
 }
 
@@ -242,7 +275,11 @@ func bdChild() {
 		for _, useVM := range []bool{false, true} {
 			w := meterx.Setup(useVM)
 			rec := meterx.NewRec(10_000_000, 0, false)
-			out := meterx.Exec(w, bdDepthProgram(d), rec, meterx.Options{UseVM: useVM, Seq: 7, StackDepthLimit: lim})
+			shape := "fun"
+			if len(op) > 3 {
+				shape = op[3]
+			}
+			out := meterx.Exec(w, bdDepthProgram(d, shape), rec, meterx.Options{UseVM: useVM, Seq: 7, StackDepthLimit: lim})
 			name := "interp"
 			if useVM {
 				name = "vm"
@@ -255,19 +292,53 @@ func bdChild() {
 	}
 }
 
+// bdSolo: every child runs under the read lock; the re-confirmation of a hang verdict takes the write
+// lock, i.e. it waits until the children of the other workers have ended and then runs alone.
+var bdSolo sync.RWMutex
+
+// bdExec runs one operation in a child process.  A `hang` verdict (the wall-clock bound was exceeded) is
+// never reported from a run that shared the machine with the stream's other children: the operation is
+// run again ALONE with a generous bound (3x the calibrated bound, at least 900 s), and `hang` is reported
+// only when that run does not end either; otherwise the observation of the second run is reported
+// (tagged `retried`).  A child killed from outside (`signal: killed`, e.g. the kernel's OOM killer under
+// memory pressure of other processes) is re-run alone in the same way; Go fatal errors, stack overflows
+// and panics of the child are reported as they are.
 func bdExec(op []string) string {
 	if len(op) < 3 {
 		return "bad-op"
-	}
-	exe, err := os.Executable()
-	if err != nil {
-		return "child-failed " + err.Error()
 	}
 	var comp uint64 = 10_000_000 // depth operations run under this limit
 	if op[0] == "run" {
 		comp, _ = strconv.ParseUint(op[2], 10, 64)
 	}
 	bound := bdBound(comp)
+	bdSolo.RLock()
+	res := bdRunChild(op, bound)
+	bdSolo.RUnlock()
+	if res == "hang" || strings.HasPrefix(res, "crash:signal: killed") {
+		generous := 3 * bound
+		if generous < 900*time.Second {
+			generous = 900 * time.Second
+		}
+		bdSolo.Lock()
+		res2 := bdRunChild(op, generous)
+		bdSolo.Unlock()
+		if os.Getenv("VERIF_DEBUG") != "" {
+			fmt.Fprintf(os.Stderr, "bounded: %q after %v; alone with bound %v: %q\n", res, bound, generous, res2)
+		}
+		if res2 == "hang" || strings.HasPrefix(res2, "crash:") {
+			return res2
+		}
+		return res2 + " retried"
+	}
+	return res
+}
+
+func bdRunChild(op []string, bound time.Duration) string {
+	exe, err := os.Executable()
+	if err != nil {
+		return "child-failed " + err.Error()
+	}
 	ctx, cancel := context.WithTimeout(context.Background(), bound)
 	defer cancel()
 	cmd := exec.CommandContext(ctx, exe)
@@ -294,6 +365,9 @@ func bdExec(op []string) string {
 		}
 		if first == "" {
 			first = strings.SplitN(strings.TrimSpace(stderr.String()), "\n", 2)[0]
+		}
+		if first == "" {
+			first = err.Error() // e.g. "signal: killed"
 		}
 		if len(first) > 160 {
 			first = first[:160]
